@@ -50,6 +50,9 @@ class BaseFuelBurnModel(ABC):
         )
         # backwards means last element stays and the rest get adjusted by
         # addition instead of subtraction
+        # (per-segment distances have to be reversed along with the integrand)
+        if np.ndim(segment_distance) > 0:
+            segment_distance = np.asarray(segment_distance)[::-1]
         cumulative_integral = cumulative_trapezoid(
             1 / specific_ground_range_corrected[::-1], dx=segment_distance
         )[::-1]
